@@ -102,7 +102,15 @@ impl Quantile {
             if index < len - 1 {
                 // `q[index]` and `q[index + 1]` are equally valid estimates,
                 // by convention we take their average.
-                return 0.5 * heights[index] + 0.5 * heights[index + 1];
+                let (a, b) = (heights[index], heights[index + 1]);
+                // Halving the sum is exact (also for subnormal numbers), so the
+                // average stays between `a` and `b`; halving first is only
+                // needed when the sum would overflow.
+                return if a.abs() <= 0.5 * f64::MAX && b.abs() <= 0.5 * f64::MAX {
+                    0.5 * (a + b)
+                } else {
+                    0.5 * a + 0.5 * b
+                };
             }
         }
         index = index.max(0.);
